@@ -540,7 +540,7 @@ def run(ctx):
         Hs.append(h)
     explore(ctx, "H", hamtools.polyham(maxdeg=4, eps_max=0.3), grab, 1, shrink=False)
     H = Hs[0]
-    total = ctx.scale(840, 48000)
+    total = ctx.scale(840, 16000)
     per_slot = max(1, total // max(len(PLAN), ctx.nshards))
     for slot in range(ctx.shard, max(len(PLAN), ctx.nshards), ctx.nshards):
         mode, kinds = PLAN[slot % len(PLAN)]
